@@ -62,6 +62,7 @@ func (w *cworld) tick(label string) bool {
 }
 
 func (w *cworld) arm(k int) {
+	w.r.WarmCache(dbName, w.l.PageSize)
 	w.mu.Lock()
 	w.armed, w.count, w.failAt, w.hit, w.events = true, 0, k, "", nil
 	w.mu.Unlock()
@@ -217,6 +218,16 @@ func sweepCluster(rep *core.Report, sel Select, c Case, l sim.Layout) {
 	ok, err := ref.op(-1)
 	events := ref.disarm()
 	streamBytes := int(ref.r.Client.Delivered() - ref.base)
+	if ok && c.Kind == "error" {
+		rep.Eval(1)
+		if stale := ref.r.StalePages(dbName, l.PageSize, l.LockPgno()); len(stale) > 0 {
+			violate(rep, sel, "replica-image", "replica-reads-stale-pages-through-the-mount", "replica-reads-stale-pages-through-the-mount/"+c.Op+"/"+c.Target,
+				map[string]any{"stale_pages": stale, "what": "after the replica applied what the primary sent (no fault), an application on the replica that had the database in its page cache reads pages through the mount that differ from the replica's database file"}, c, l, "", -1, "")
+		}
+	}
+	if ok && c.Kind == "error" && c.Op == "replica_apply" {
+		ref.replicaHistories(rep, sel)
+	}
 	ref.close()
 	if err != nil || !ok {
 		core.Infra("faults: fault-free run of %s did not converge (err=%v)", c.Key(), err)
@@ -292,6 +303,7 @@ func oneCluster(rep *core.Report, sel Select, c Case, l sim.Layout, k int) {
 	groupOf := map[string]string{
 		"replica-restart-fails": "replica-restart", "replica-restarted-checksum-mismatch": "replica-restart",
 		"replica-does-not-converge": "replica-image", "replica-image-differs-at-the-primarys-position": "replica-image",
+		"replica-reads-stale-pages-through-the-mount":       "replica-image",
 		"replica-checksum-is-not-the-checksum-of-its-pages": "replica-checksum",
 		"replica-log-is-not-a-chain-to-its-position":        "replica-chain",
 	}
@@ -352,7 +364,78 @@ func oneCluster(rep *core.Report, sel Select, c Case, l sim.Layout, k int) {
 	if got := rIm.Checksum(lockPg); got != uint64(ppos.PostApplyChecksum) {
 		v("replica-checksum-is-not-the-checksum-of-its-pages", "the replica's position checksum differs from the checksum recomputed over its pages", map[string]any{"reported": ppos.String(), "recomputed": fmt.Sprintf("%016x", got)})
 	}
+	if stale := w.r.StalePages(dbName, l.PageSize, lockPg); len(stale) > 0 {
+		v("replica-reads-stale-pages-through-the-mount", "an application on the replica that had the database in its page cache reads pages through the mount that differ from the replica's database file", map[string]any{"stale_pages": stale, "position": ppos.String()})
+	}
 	if probs := sim.ChainProblems(w.r.DBDir(dbName), uint64(ppos.TXID), uint64(ppos.PostApplyChecksum)); len(probs) > 0 {
 		v("replica-log-is-not-a-chain-to-its-position", "the replica's transaction files are not one chain that ends at its position", map[string]any{"problems": probs})
 	}
+}
+
+// replicaHistories continues the fault-free run: the primary shrinks the database and lets it grow again over
+// the same page numbers, then drops it and creates it again under the same name, while an application on the
+// replica keeps the database open (its pages stay in the kernel's cache, its inode stays alive). After every
+// step the replica's mount must show what the replica's file holds.
+func (w *cworld) replicaHistories(rep *core.Report, sel Select) {
+	c, l := w.c, w.l
+	wal := c.Target == "wal_frames"
+	check := func(step string) bool {
+		want := w.p.Store.DB(dbName)
+		if want == nil {
+			return true
+		}
+		if err := w.cl.WaitPos("r", dbName, want.Pos(), 20*time.Second); err != nil {
+			core.Infra("faults: replica did not follow (%s): %v", step, err)
+		}
+		rep.Eval(1)
+		if stale := w.r.StalePages(dbName, l.PageSize, l.LockPgno()); len(stale) > 0 {
+			violate(rep, sel, "replica-image", "replica-reads-stale-pages-through-the-mount", "replica-reads-stale-pages-through-the-mount/"+step+"/"+c.Target,
+				map[string]any{"stale_pages": stale, "history": step, "what": "an application on the replica that keeps the database open reads pages through the mount that differ from the replica's database file"}, c, l, step, -1, "")
+			return false
+		}
+		return true
+	}
+	commit := func(v, ns int, pages []int) error {
+		if wal {
+			return commitW(w.pg, sim.Plan{Kind: "w", Ns: ns, M: pages, Out: "commit", V: v, Wal: true}, 3)
+		}
+		return commitJ(w.pg, sim.Plan{Kind: "j", Ns: ns, M: pages, Out: "commit", Fin: "DELETE", V: v})
+	}
+	w.r.WarmCache(dbName, l.PageSize)
+	if err := commit(11, 2, []int{1, 2}); err != nil {
+		core.Infra("faults: shrink: %v", err)
+	}
+	if !wal {
+		_ = w.pg.JTrunc(2)
+	}
+	if !check("shrink") {
+		return
+	}
+	if err := commit(12, 6, []int{1, 3, 4, 5, 6}); err != nil {
+		core.Infra("faults: regrow: %v", err)
+	}
+	if !check("shrink-then-regrow") {
+		return
+	}
+	w.r.WarmCache(dbName, l.PageSize)
+	// drop and create again under the same name (rollback journal; the log continues)
+	_ = core.Try(func() { w.pg.C.Close() })
+	if err := w.p.Connect(dbName, 111).RemoveDB(); err != nil {
+		core.Infra("faults: drop: %v", err)
+	}
+	deadline := time.Now().Add(20 * time.Second)
+	for time.Now().Before(deadline) {
+		if db := w.r.Store.DB(dbName); db == nil || db.Pos() == w.p.Store.DB(dbName).Pos() {
+			break
+		}
+		time.Sleep(time.Millisecond)
+	}
+	w.pg = sim.NewPager(w.p.Connect(dbName, 112), l, sim.PagerOpts{Sector: 512, Busy: 2 * time.Second})
+	if err := w.pg.C.OpenDB(true); err != nil {
+		core.Infra("faults: re-create: %v", err)
+	}
+	if err := commitJ(w.pg, sim.Plan{Kind: "j", Ns: 4, M: []int{1, 2, 3, 4}, Out: "commit", Fin: "DELETE", V: 21}); err != nil {
+		core.Infra("faults: first transaction after the re-creation: %v", err)
+	}
+	check("drop-then-recreate")
 }
